@@ -1894,39 +1894,14 @@ func ruleC12DiagSource(c *Checker) {
 			fa, ok := u.X.(*ssa.FieldAddr)
 			return ok && fieldOf(fa) == f
 		}
-		isNilCmp := func(v ssa.Value, op token.Token) bool {
-			bo, ok := v.(*ssa.BinOp)
-			return ok && bo.Op == op && ((isLoadOfF(bo.X) && isNilConst(bo.Y)) || (isLoadOfF(bo.Y) && isNilConst(bo.X)))
+		// the values stored into the field
+		type res struct {
+			val ssa.Value
+			at  *ssa.BasicBlock
 		}
-		neT, _ := condEdges(fn, func(v ssa.Value) bool { return isNilCmp(v, token.NEQ) })
-		_, eqF := condEdges(fn, func(v ssa.Value) bool { return isNilCmp(v, token.EQL) })
-		nonNil := append(neT, eqF...)
-		validT, _ := condEdges(fn, func(v ssa.Value) bool {
-			cl, ok := v.(*ssa.Call)
-			return ok && cl.Common().StaticCallee() != nil && cl.Common().StaticCallee().Name() == "ValidSubPath"
-		})
-		// dereferences
-		derefOK := true
-		eachInstr(fn, func(in ssa.Instruction) {
-			var ptr ssa.Value
-			switch x := in.(type) {
-			case *ssa.UnOp:
-				if x.Op == token.MUL && isLoadOfF(x.X) {
-					ptr = x.X
-				}
-			case *ssa.FieldAddr:
-				if isLoadOfF(x.X) {
-					ptr = x.X
-				}
-			}
-			if ptr != nil && !(len(nonNil) > 0 && guarded(in.Block(), nonNil)) {
-				derefOK = false
-			}
-		})
-		c.check(derefOK, R, name, f.Name()+" dereferenced only when not nil", p.Pos(fn.Pos()), "every dereference sits past the not-nil edge", "the "+f.Name()+" range of a finder's diagnostic is dereferenced on a path where it may be nil (the test is gone or inverted): a diagnostic without that range makes Source() panic")
-		// replacement
-		replaced := false
-		why := "the field is never replaced"
+		var inl []res
+		var viaHelper *ssa.Function
+		helperArg := -1
 		eachInstr(fn, func(in ssa.Instruction) {
 			st, ok := in.(*ssa.Store)
 			if !ok {
@@ -1936,10 +1911,97 @@ func ruleC12DiagSource(c *Checker) {
 			if !ok || fieldOf(fa) != f {
 				return
 			}
-			al, ok := st.Val.(*ssa.Alloc)
-			if !ok {
-				why = "the field is set to something other than a fresh copy"
+			if cl, ok := st.Val.(*ssa.Call); ok {
+				if h := cl.Common().StaticCallee(); h != nil && p.InModule(h) {
+					for i, a := range cl.Call.Args {
+						if isLoadOfF(a) {
+							viaHelper, helperArg = h, i
+						}
+					}
+				}
+			}
+			inl = append(inl, res{st.Val, st.Block()})
+		})
+		if viaHelper != nil && helperArg < len(viaHelper.Params) {
+			prm := viaHelper.Params[helperArg]
+			var rs []res
+			for _, r := range returnsOf(viaHelper) {
+				rs = append(rs, res{r.Results[0], r.Block()})
+			}
+			okD, okR, why := rangeRewrite(p, viaHelper, func(v ssa.Value) bool { return v == ssa.Value(prm) }, func() (vals []ssa.Value, ats []*ssa.BasicBlock) {
+				for _, x := range rs {
+					vals, ats = append(vals, x.val), append(ats, x.at)
+				}
 				return
+			})
+			c.check(okD, R, name, f.Name()+" dereferenced only when not nil", p.Pos(viaHelper.Pos()), "every dereference in "+p.FuncName(viaHelper)+" sits past the not-nil edge", "the "+f.Name()+" range of a finder's diagnostic is dereferenced on a path where it may be nil (the test is gone or inverted): a diagnostic without that range makes Source() panic")
+			c.check(okR, R, name, f.Name()+" rewritten to a source address", p.Pos(viaHelper.Pos()), "through "+p.FuncName(viaHelper)+": a copy with Filename = pkg.SourceAddr(name).String() on the not-nil, valid-name edge, the range itself otherwise", "the "+f.Name()+" range keeps the finder's package-relative file name ("+why+"): the tracer and the caller are pointed at a path that means nothing outside the finder")
+			continue
+		}
+		okD, okR, why := rangeRewrite(p, fn, isLoadOfF, func() (vals []ssa.Value, ats []*ssa.BasicBlock) {
+			for _, x := range inl {
+				vals, ats = append(vals, x.val), append(ats, x.at)
+			}
+			return
+		})
+		c.check(okD, R, name, f.Name()+" dereferenced only when not nil", p.Pos(fn.Pos()), "every dereference sits past the not-nil edge", "the "+f.Name()+" range of a finder's diagnostic is dereferenced on a path where it may be nil (the test is gone or inverted): a diagnostic without that range makes Source() panic")
+		c.check(okR, R, name, f.Name()+" rewritten to a source address", p.Pos(fn.Pos()), "a copy with Filename = pkg.SourceAddr(name).String() replaces it on the not-nil, valid-name edge", "the "+f.Name()+" range keeps the finder's package-relative file name ("+why+"): the tracer and the caller are pointed at a path that means nothing outside the finder")
+	}
+}
+
+// rangeRewrite checks, in host, a pointer (recognised by isPtr) to a source
+// range: it is dereferenced only past its not-nil edge, and among the values
+// that replace it there is a fresh copy whose Filename comes from
+// RemotePackage.SourceAddr, placed past the not-nil edge and the true edge of
+// ValidSubPath; every other replacement is the pointer itself.
+func rangeRewrite(p *Prog, host *ssa.Function, isPtr func(ssa.Value) bool, results func() ([]ssa.Value, []*ssa.BasicBlock)) (derefOK, rewritten bool, why string) {
+	isNilCmp := func(v ssa.Value, op token.Token) bool {
+		bo, ok := v.(*ssa.BinOp)
+		return ok && bo.Op == op && ((isPtr(bo.X) && isNilConst(bo.Y)) || (isPtr(bo.Y) && isNilConst(bo.X)))
+	}
+	neT, _ := condEdges(host, func(v ssa.Value) bool { return isNilCmp(v, token.NEQ) })
+	_, eqF := condEdges(host, func(v ssa.Value) bool { return isNilCmp(v, token.EQL) })
+	nonNil := append(neT, eqF...)
+	validT, _ := condEdges(host, func(v ssa.Value) bool {
+		cl, ok := v.(*ssa.Call)
+		return ok && cl.Common().StaticCallee() != nil && cl.Common().StaticCallee().Name() == "ValidSubPath"
+	})
+	derefOK = true
+	eachInstr(host, func(in ssa.Instruction) {
+		deref := false
+		switch x := in.(type) {
+		case *ssa.UnOp:
+			deref = x.Op == token.MUL && isPtr(x.X)
+		case *ssa.FieldAddr:
+			deref = isPtr(x.X)
+		}
+		if deref && !(len(nonNil) > 0 && guarded(in.Block(), nonNil)) {
+			derefOK = false
+		}
+	})
+	why = "the range is never replaced"
+	vals, ats := results()
+	for i, v := range vals {
+		at := ats[i]
+		if isPtr(v) {
+			continue
+		}
+		// a phi of the pointer itself and a copy: look at the copy's edge
+		cands := []ssa.Value{v}
+		blocks := []*ssa.BasicBlock{at}
+		if ph, ok := v.(*ssa.Phi); ok {
+			cands, blocks = nil, nil
+			for j, e := range ph.Edges {
+				if !isPtr(e) {
+					cands, blocks = append(cands, e), append(blocks, ph.Block().Preds[j])
+				}
+			}
+		}
+		for j, cv := range cands {
+			al, ok := cv.(*ssa.Alloc)
+			if !ok {
+				why = "the range is replaced by something other than a fresh copy or itself"
+				continue
 			}
 			fromAddr := false
 			eachAllocFieldStore(al, func(s2 *ssa.Store) {
@@ -1954,14 +2016,14 @@ func ruleC12DiagSource(c *Checker) {
 			switch {
 			case !fromAddr:
 				why = "the copy's Filename is not set from RemotePackage.SourceAddr"
-			case !(len(nonNil) > 0 && guarded(st.Block(), nonNil)):
+			case !(len(nonNil) > 0 && guarded(blocks[j], nonNil)):
 				why = "the replacement does not sit on the not-nil edge"
-			case !(len(validT) > 0 && guarded(st.Block(), validT)):
+			case !(len(validT) > 0 && guarded(blocks[j], validT)):
 				why = "the replacement is not guarded by ValidSubPath (SourceAddr panics for other names)"
 			default:
-				replaced = true
+				rewritten = true
 			}
-		})
-		c.check(replaced, R, name, f.Name()+" rewritten to a source address", p.Pos(fn.Pos()), "a copy with Filename = pkg.SourceAddr(name).String() replaces it on the not-nil, valid-name edge", "the "+f.Name()+" range keeps the finder's package-relative file name ("+why+"): the tracer and the caller are pointed at a path that means nothing outside the finder")
+		}
 	}
+	return
 }
